@@ -24,7 +24,8 @@ RULE = ('templates built from segment lists: literal runs (ASCII, unicode incl. 
         '(character soup over braces, !, :, brackets, digits, plus hand-picked malformed ones: single braces, unclosed '
         'fields, bad conversions, numeric-only specs, numbering clashes); each through the log-only action '
         '(snapshot=no_collect + log_msg) or the snapshot+log action, on frame-like mocks or REAL frames (sys.settrace), '
-        'with a recording TracepointLogger or the default PythonPlugin logger, 1-3 hits with fire_count / fire_period; '
+        'with a recording TracepointLogger, the default PythonPlugin logger, no logger at all, two registered loggers, or '
+        'a falsy logger object (own labelled stream: known finding), 1-3 hits with fire_count / fire_period; '
         'a limits stream: the snapshot+log action constructed directly with small MAX_VARIABLES / MAX_STRING_LENGTH / '
         'MAX_COLLECTION_SIZE / MAX_VAR_DEPTH (budget spent by the frame before the template is processed) and extra '
         'watches — the message must not depend on collection limits; a schedule stream: two threads with different '
@@ -115,7 +116,7 @@ def base_case(rng):
         hits.append(ts)
         ts += rng.choice([1, 999_999, 1_000_000_000, 1_000_000_001])
     return {'mode': rng.choice(['log', 'snap']), 'via': rng.choice(['mock', 'mock', 'real']),
-            'logger': 'default' if rng.random() < 0.12 else 'rec',
+            'logger': rng.choice(['default'] * 3 + ['none', 'none', 'two', 'two', 'falsy'] + ['rec'] * 17),
             'cfg': {'fire_count': rng.choice(COUNTS), 'fire_period': rng.choice(PERIODS)}, 'hits': hits}
 
 
@@ -260,6 +261,16 @@ def build_log_trigger(case, path, line):
             acts.append(LocationAction(a.id, a.condition, cfg, a.action_type))
         trig = Trigger(LineLocation(path, line, Location.Position.START), acts)
     return trig
+
+
+class FalsyLogger(RecLogger):
+    """a collecting logger whose length is the number of lines so far: an empty one is a falsy object"""
+
+    def __len__(self):
+        return len(self.logged)
+
+
+FINDING_FALSY = 'C16/falsy-logger-skipped'
 
 
 class FaultyLogger(RecLogger):
@@ -493,7 +504,15 @@ def run_impl(case):
         cap = _Capture()
         dl.addHandler(cap)
         dl.setLevel(logging.INFO)
-    rig = Rig(logger=not default, plugins=plugins)
+    second = None
+    if case['logger'] == 'two':
+        second = RecLogger()                      # a second tracepoint logger: only the first one is "the" logger
+        plugins = [second]
+    if case['logger'] == 'falsy':
+        plugins = [FalsyLogger()]
+    rig = Rig(logger=case['logger'] in ('rec', 'two'), plugins=plugins)
+    if case['logger'] == 'falsy':
+        rig.logger = plugins[0]
     try:
         name = X.unique('verif_host_c16')
         mod = X.make_module(name, GLOBALS)
@@ -519,6 +538,8 @@ def run_impl(case):
             calls = rig.logger.logged[n_log:]
             snaps = rig.push.pushed[n_snap:]
             h['logger'] = [[c[0], canon_id(c[1]), canon_id(c[2])] for c in calls]
+            if second is not None:
+                h['second'] = len(second.logged)
             h['lines'] = list(cap.lines[n_line:]) if cap else []
             h['snapshots'] = len(snaps)
             if snaps:
@@ -719,11 +740,23 @@ def oracle(case, obs):
             if msgs or h['snapshots']:
                 v.append(f'hit {i} is over the fire limits but produced {msgs!r} / {h["snapshots"]} snapshot(s)')
             continue
-        if case['logger'] == 'rec':
+        if case['logger'] == 'none':
+            if h['logger'] or h['lines']:
+                v.append(f'hit {i}: no tracepoint logger is configured but {h["logger"]!r} was logged')
+        elif case['logger'] in ('rec', 'two', 'falsy'):
+            if h.get('second'):
+                v.append(f'hit {i}: the second registered logger received {h["second"]} messages (only the configured '
+                         f'— first — tracepoint logger is used)')
             if len(h['logger']) != 1:
-                v.append(f'hit {i}: {len(h["logger"])} logger calls, expected 1: {h["logger"]!r}')
-                continue
-            got, tp, ctx = h['logger'][0]
+                msg_ = f'hit {i}: {len(h["logger"])} logger calls, expected 1: {h["logger"]!r}'
+                if case['logger'] == 'falsy' and not h['logger']:
+                    msg_ = 'KF[%s] %s (the registered logger object is falsy: __len__ == 0)' % (FINDING_FALSY, msg_)
+                v.append(msg_)
+                if case['mode'] != 'snap' or case['logger'] != 'falsy':
+                    continue
+                got, tp, ctx = msg, '<tp>', '<ctx>'
+            else:
+                got, tp, ctx = h['logger'][0]
             if got != msg:
                 v.append(f'hit {i}: message {got!r}, expected {msg!r}')
             if tp != '<tp>' or ctx != '<ctx>':
@@ -761,11 +794,26 @@ def oracle(case, obs):
                             ((o['failed'] or o['ty'] in X.SIMPLE_TYPES) and w['value'] != o['text']):
                         v.append(f'hit {i}: field {e!r} recorded as {w["type"]} {w["value"]!r} error={w["error"]!r}; '
                                  f'in the frame it is {o["ty"]} {o["text"]!r}')
-            if case['logger'] == 'rec' and not h.get('snap_ctx_is_logger_ctx'):
+            if case['logger'] in ('rec', 'two') and not h.get('snap_ctx_is_logger_ctx'):
                 v.append(f'hit {i}: the context id given to the logger is not the snapshot\'s context attribute')
         elif h['snapshots']:
             v.append(f'hit {i}: log-only tracepoint pushed {h["snapshots"]} snapshot(s)')
     return v
+
+
+def known_finding(case, obs):
+    if case.get('logger') != 'falsy':
+        return None
+    v = oracle(case, obs)
+    return FINDING_FALSY if v and all(m.startswith('KF[%s]' % FINDING_FALSY) for m in v) else None
+
+
+def known_replays():
+    return [(FINDING_FALSY,
+             'a registered tracepoint logger object that is falsy (__len__ == 0) never receives the message: '
+             'LogActionResult.process tests `if tracepoint_logger:`',
+             {'kind': 'tpl', 'mode': 'log', 'via': 'mock', 'logger': 'falsy', 'cfg': {'fire_count': '1', 'fire_period': '1000'},
+              'hits': [100], 'segs': [['lit', 'n='], ['field', 'n', None, '']]})]
 
 
 def oracle_table(case, thread=None):
@@ -780,7 +828,7 @@ def oracle_table(case, thread=None):
             if ch == '{':
                 for j in range(i + 1, len(t) + 1):
                     names.add(t[i + 1:j])
-    return [{'e': n, 'o': X.outcome(n, g, loc)} for n in sorted(names)]
+    return [{'e': n, 'o': X.eval_outcome(n, g, loc)} for n in sorted(names)]
 
 
 def model_request(case, obs):
@@ -797,7 +845,8 @@ def model_request(case, obs):
     if case['kind'] == 'conc':
         return {'op': 'renderN', 'tpl': template_of(case), 'collect': case['mode'] == 'snap',
                 'threads': [{'oracle': oracle_table(case, i)} for i in range(len(obs['hits']))]}
-    return {'op': 'render', 'tpl': template_of(case), 'collect': case['mode'] == 'snap', 'oracle': oracle_table(case)}
+    return {'op': 'render', 'tpl': template_of(case), 'collect': case['mode'] == 'snap', 'oracle': oracle_table(case),
+            'logger': {'none': 'absent', 'falsy': 'falsy'}.get(case['logger'], 'plain')}
 
 
 def compare(case, obs, resp):
@@ -830,7 +879,7 @@ def compare_one(case, first, resp):
     if r.get('err') == 'unsupported':
         return []
     d = []
-    if case['logger'] == 'rec':
+    if case['logger'] != 'default':
         exp_calls = [[v for _, v in call] for call in resp['logger']]
         names = [[k for k, _ in call] for call in resp['logger']]
         if any(n != ['log_msg', 'tp_id', 'ctx_id'] for n in names):
